@@ -58,6 +58,7 @@ struct FontEntry {
     instructed: bool,
     synthetic: bool,
     third_party: bool,
+    has_gvar: bool,
 }
 
 struct Corpus {
@@ -80,7 +81,7 @@ fn add_font(out: &mut Vec<FontEntry>, name: String, font: FontRef<'static>, synt
     if nglyphs == 0 {
         return;
     }
-    out.push(FontEntry { name, font: font.clone(), nglyphs, axes: font.axes().len(), format, instructed: outlines.prefer_interpreter(), synthetic, third_party });
+    out.push(FontEntry { name, font: font.clone(), nglyphs, axes: font.axes().len(), format, instructed: outlines.prefer_interpreter(), synthetic, third_party, has_gvar: font.gvar().is_ok() });
 }
 
 fn corpus() -> &'static Corpus {
@@ -147,6 +148,18 @@ fn pick_syn(raw: u32) -> &'static FontEntry {
 fn pick_gid(f: &FontEntry, raw: u32) -> GlyphId {
     GlyphId::new(idx(raw, f.nglyphs as usize) as u32)
 }
+fn is_composite(f: &FontEntry, g: GlyphId) -> bool {
+    use skrifa::raw::tables::glyf::Glyph;
+    let (Ok(loca), Ok(glyf)) = (f.font.loca(None), f.font.glyf()) else { return false };
+    matches!(loca.get_glyf(g, &glyf), Ok(Some(Glyph::Composite(_))))
+}
+/// Repaired defect (regression stage `known-hb-dirty-memory`): the HarfBuzz-style scaler (`load_composite`) added
+/// `memory.composite_deltas[..]` to every component offset even when no deltas were computed (default location, or no gvar data
+/// for the glyph); with caller memory that slot was never written.
+fn hb_composite(f: &FontEntry, hint: &Hint, gids: &[GlyphId]) -> bool {
+    matches!(hint, Hint::Unhinted { harfbuzz: true }) && f.has_gvar && f.format == OutlineGlyphFormat::Glyf && gids.iter().any(|g| is_composite(f, *g))
+}
+const HB_KNOWN_SIG: &str = "memory-mismatch|hb-style-unwritten-composite-deltas";
 
 // ---------------------------------------------------------------------------------------------
 // synthetic instructed fonts
@@ -1087,6 +1100,10 @@ fn test_history(c: &Case, stats: &Stats) -> CaseResult {
     let f = pick_font(c.font);
     let outlines = f.font.outline_glyphs();
     let gids: Vec<GlyphId> = c.gids.iter().map(|r| pick_gid(f, *r)).collect();
+    let buf = c.buf.clone();
+    if buf.mode != 0 && hb_composite(f, &c.cfg.hint, &gids) && (buf.fill % 6 != 0 || buf.reuse) {
+        stats.class("hb-style-composite-dirty-memory");
+    }
     let base = baseline(f, &c.cfg, &gids)?;
     if let Some(e) = &base.repeat_fail {
         return Err(fail("repeat-mismatch", format!("second draw through the same fresh instance differs: font {} cfg {:?}: {e}", f.name, c.cfg)));
@@ -1101,7 +1118,7 @@ fn test_history(c: &Case, stats: &Stats) -> CaseResult {
     let var_loc = if zero_variant { Loc::Zeros(c.zero_len.unwrap()) } else { c.cfg.loc.clone() };
     let coords = coords_of(f.axes, &var_loc);
     let mut scratch = Scratch::default();
-    let (inst, ok_steps, other_format) = run_history(&c.history, f, &mut scratch, &c.buf, stats);
+    let (inst, ok_steps, other_format) = run_history(&c.history, f, &mut scratch, &buf, stats);
 
     let hinted = matches!(c.cfg.hint, Hint::Hinted { .. });
     let mut used: Option<HintingInstance> = inst;
@@ -1141,7 +1158,7 @@ fn test_history(c: &Case, stats: &Stats) -> CaseResult {
     // glyphs drawn before
     for (raw, with_mem) in &c.pre {
         if let Some(gl) = outlines.get(pick_gid(f, *raw)) {
-            let _ = if *with_mem && c.buf.mode != 0 { draw_mem(&gl, &how, &mut scratch, &c.buf) } else { draw_one(&gl, &how, None) };
+            let _ = if *with_mem && buf.mode != 0 { draw_mem(&gl, &how, &mut scratch, &buf) } else { draw_one(&gl, &how, None) };
         }
     }
     let mut any_hinting = false;
@@ -1157,11 +1174,11 @@ fn test_history(c: &Case, stats: &Stats) -> CaseResult {
         let what = if ok_steps > 0 { "reused instance (library memory)" } else { "second instance (library memory)" };
         let d1 = draw_one(&gl, &how, None);
         compare(if zero_variant { "zero-location-mismatch" } else if hinted { "history-mismatch" } else { "draw-order-mismatch" }, what, f, *g, &c.cfg, b, &d1)?;
-        if c.buf.mode != 0 {
-            let d2 = draw_mem(&gl, &how, &mut scratch, &c.buf);
+        if buf.mode != 0 {
+            let d2 = draw_mem(&gl, &how, &mut scratch, &buf);
             compare(
                 "memory-mismatch",
-                &format!("caller memory ({} bytes advertised, mode {}, slack {}, start%8={}, fill {}, reuse {})", mem_need(&gl, hinted), c.buf.mode, c.buf.slack, c.buf.misalign, c.buf.fill, c.buf.reuse),
+                &format!("caller memory ({} bytes advertised, mode {}, slack {}, start%8={}, fill {}, reuse {})", mem_need(&gl, hinted), buf.mode, buf.slack, buf.misalign, buf.fill, buf.reuse),
                 f,
                 *g,
                 &c.cfg,
@@ -1191,12 +1208,12 @@ fn test_history(c: &Case, stats: &Stats) -> CaseResult {
         Hint::Hinted { engine: 2, .. } => "K=autofallback",
         Hint::Hinted { .. } => "K=auto-precomputed-styles",
     });
-    stats.class(match c.buf.mode {
+    stats.class(match buf.mode {
         0 => "buf=library",
         1 => "buf=exact",
         _ => "buf=slack",
     });
-    if c.buf.mode != 0 && c.buf.misalign % 4 != 0 {
+    if buf.mode != 0 && buf.misalign % 4 != 0 {
         stats.class("buf=misaligned");
     }
     stats.class(&format!("history={}", ok_steps.min(6)));
@@ -1229,7 +1246,7 @@ fn test_history(c: &Case, stats: &Stats) -> CaseResult {
         if stats.want_sample() {
             stats.sample(serde_json::json!({"stage": "history", "font": f.name, "gids": gids.iter().map(|g| g.to_u32()).collect::<Vec<_>>(), "cfg": c.cfg,
                 "history": c.history.iter().map(|s| serde_json::json!({"font": sel_font(&s.font, f).name, "ppem64": s.ppem64, "hint": s.hint, "draws": s.draws.len()})).collect::<Vec<_>>(),
-                "pre_draws": c.pre.len(), "buf": c.buf, "commands": base.draws.iter().flatten().map(|d| d.cmds.len()).collect::<Vec<_>>()}));
+                "pre_draws": c.pre.len(), "buf": buf, "commands": base.draws.iter().flatten().map(|d| d.cmds.len()).collect::<Vec<_>>()}));
         }
     }
     Ok(())
@@ -1426,24 +1443,43 @@ fn child_main() -> ! {
     std::process::exit(0);
 }
 
+static INFRA: std::sync::Mutex<Vec<String>> = std::sync::Mutex::new(Vec::new());
+/// trouble of the harness itself (process spawning) is infrastructure, never a verdict
+fn infra(msg: String) -> CaseResult {
+    INFRA.lock().unwrap().push(msg);
+    Ok(())
+}
+
 fn test_process(c: &PCase, stats: &Stats) -> CaseResult {
     use std::io::Write;
-    let exe = std::env::current_exe().map_err(|e| fail("harness", format!("current_exe: {e}")))?;
-    let mut child = std::process::Command::new(exe)
+    let Ok(exe) = std::env::current_exe() else { return infra("current_exe failed".into()) };
+    let mut child = match std::process::Command::new(exe)
         .env("C12_CHILD", "1")
         .stdin(std::process::Stdio::piped())
         .stdout(std::process::Stdio::piped())
         .stderr(std::process::Stdio::null())
         .spawn()
-        .map_err(|e| fail("harness", format!("spawn child: {e}")))?;
-    child.stdin.take().unwrap().write_all(serde_json::to_string(c).unwrap().as_bytes()).map_err(|e| fail("harness", format!("write child: {e}")))?;
+    {
+        Ok(c) => c,
+        Err(e) => return infra(format!("fresh-process: spawn child: {e}")),
+    };
+    if let Err(e) = child.stdin.take().unwrap().write_all(serde_json::to_string(c).unwrap().as_bytes()) {
+        let _ = child.kill();
+        let _ = child.wait();
+        return infra(format!("fresh-process: write to child: {e}"));
+    }
     // this process: forward order, after whatever this process has done before
     let mine: Vec<Option<(Result<(), String>, Option<Drawn>)>> = c.items.iter().map(pitem_draw).collect();
-    let out = child.wait_with_output().map_err(|e| fail("harness", format!("wait child: {e}")))?;
-    let theirs: Vec<Option<(Result<(), String>, Option<Drawn>)>> =
-        serde_json::from_slice(&out.stdout).map_err(|e| fail("harness", format!("child output undecodable ({e}); status {}", out.status)))?;
+    let out = match child.wait_with_output() {
+        Ok(o) => o,
+        Err(e) => return infra(format!("fresh-process: wait for child: {e}")),
+    };
+    let theirs: Vec<Option<(Result<(), String>, Option<Drawn>)>> = match serde_json::from_slice(&out.stdout) {
+        Ok(t) => t,
+        Err(e) => return infra(format!("fresh-process: child output undecodable ({e}); status {}", out.status)),
+    };
     if theirs.len() != mine.len() {
-        return Err(fail("harness", "child returned a different number of items".into()));
+        return infra("fresh-process: child returned a different number of items".into());
     }
     let mut nt = false;
     for (i, (a, b)) in theirs.iter().zip(&mine).enumerate() {
@@ -1466,7 +1502,7 @@ fn test_process(c: &PCase, stats: &Stats) -> CaseResult {
                     _ => return Err(fail("process-history-mismatch", format!("font {} gid {}: glyph present in one process only", f.name, g.to_u32()))),
                 }
             }
-            (None, _) => return Err(fail("harness", format!("child panicked on item {i} (font {} cfg {:?})", f.name, it.cfg))),
+            (None, _) => return Err(fail("process-history-mismatch", format!("item {i} (font {} gid {} cfg {:?}): panic in the fresh process, none in this process", f.name, g.to_u32(), it.cfg))),
             (_, None) => unreachable!(),
         }
     }
@@ -1558,6 +1594,69 @@ fn test_syn(c: &SynCase, stats: &Stats) -> CaseResult {
     Ok(())
 }
 
+// ---------------------------------------------------------------------------------------------
+// stage: HarfBuzz-style unhinted draws of variable glyf fonts with *dirty* caller memory (regression stage for the repaired defect on
+// composite glyphs; any other glyph must be unaffected by the buffer's prior content)
+
+#[derive(Clone, Debug, Serialize, Deserialize)]
+struct HbCase {
+    font: String,
+    gid: u32,
+    fill: u8,
+    misalign: u8,
+    /// 0 = no location, 1 = +1 on every axis, 2 = -1 on every axis
+    loc: u8,
+    ppem64: u32,
+}
+
+fn hb_list() -> &'static Vec<(u32, u32)> {
+    static L: OnceLock<Vec<(u32, u32)>> = OnceLock::new();
+    L.get_or_init(|| {
+        let mut v = vec![];
+        for (i, f) in corpus().fonts.iter().enumerate() {
+            if f.has_gvar && f.format == OutlineGlyphFormat::Glyf {
+                for g in 0..f.nglyphs.min(40) {
+                    v.push((i as u32, g));
+                }
+            }
+        }
+        v
+    })
+}
+fn hb_count() -> u64 {
+    hb_list().len() as u64 * 15
+}
+fn hb_case(i: u64) -> HbCase {
+    let l = hb_list();
+    let (fi, g) = l[(i / 15) as usize % l.len()];
+    let k = i % 15;
+    HbCase { font: corpus().fonts[fi as usize].name.clone(), gid: g, fill: (k % 5) as u8 + 1, misalign: (i % 8) as u8, loc: (k / 5) as u8, ppem64: if i % 2 == 0 { 0 } else { 16 * 64 } }
+}
+fn test_hb(c: &HbCase, stats: &Stats) -> CaseResult {
+    let Some(f) = corpus().fonts.iter().find(|f| f.name == c.font) else { return Err(fail("harness", format!("font {} not in corpus", c.font))) };
+    let o = f.font.outline_glyphs();
+    let g = GlyphId::new(c.gid);
+    let Some(gl) = o.get(g) else { return Ok(()) };
+    let loc = match c.loc {
+        0 => Loc::None,
+        1 => Loc::Coords(vec![16384]),
+        _ => Loc::Coords(vec![-16384]),
+    };
+    let coords = coords_of(f.axes, &loc);
+    let how = How::Unhinted { size: size_of(c.ppem64), coords: &coords, harfbuzz: true };
+    let b = draw_one(&gl, &how, None);
+    let buf = Buf { mode: 1, slack: 0, misalign: c.misalign, fill: c.fill, reuse: false };
+    let mut scratch = Scratch::default();
+    let d = draw_mem(&gl, &how, &mut scratch, &buf);
+    let cfg = Cfg { ppem64: c.ppem64, loc, hint: Hint::Unhinted { harfbuzz: true } };
+    let comp = is_composite(f, g);
+    stats.class(if comp { "HB:composite" } else { "HB:simple-or-empty" });
+    if b.is_ok() && !b.cmds.is_empty() {
+        stats.nontrivial(hash_json(c));
+    }
+    compare(if comp { HB_KNOWN_SIG } else { "memory-mismatch" }, &format!("HarfBuzz-style draw, caller memory with prior content (fill {}), start%8={}", c.fill, c.misalign), f, g, &cfg, &b, &d)
+}
+
 /// the synthetic programs must execute without error (pedantic) and the retained state must be visible in the outline,
 /// otherwise the family proves nothing
 fn synthetic_selftest() -> Result<serde_json::Value, String> {
@@ -1615,6 +1714,13 @@ fn main() {
         for f in &c.fonts {
             println!("{:40} glyphs {:5} axes {} fmt {:?} instructed {} third {} syn {}", f.name, f.nglyphs, f.axes, f.format, f.instructed, f.third_party, f.synthetic);
         }
+        if let Some(f) = c.fonts.iter().find(|f| f.name == "Roboto-Regular.ttf") {
+            let gl = f.font.outline_glyphs().get(GlyphId::new(40)).unwrap();
+            for hb in [false, true] {
+                let d = draw_one(&gl, &How::Unhinted { size: size_of(16 * 64), coords: &[], harfbuzz: hb }, None);
+                println!("Roboto gid 40 @16ppem harfbuzz-style={hb}: {:?} first {}", d.res, d.cmds.first().map(fmt_cmd).unwrap_or_default());
+            }
+        }
     }
     ctx.set_rule(
         "case = (font from corpus+vendored hinted fonts+3 hand-assembled instructed fonts, 1-3 glyph ids, K = (size grid/fractional/unscaled, location none|coords, unhinted|engine x 17 targets x pedantic), \
@@ -1636,8 +1742,12 @@ fn main() {
         Err(e) => ctx.infra_error(format!("synthetic font self-test failed: {e}")),
     }
     ctx.index_stage("synthetic-pairs", Isolation::Threads, syn_count(), syn_case, test_syn);
-    ctx.prop_stage("history", Isolation::Threads, ctx.n(30_000, 400_000), case_strategy, test_history);
-    ctx.prop_stage("threads", Isolation::Threads, ctx.n(1_500, 20_000), tcase_strategy, test_threads);
-    ctx.prop_stage("fresh-process", Isolation::Threads, ctx.n(150, 2_000), pcase_strategy, test_process);
+    ctx.index_stage("known-hb-dirty-memory", Isolation::Threads, hb_count(), hb_case, test_hb);
+    ctx.prop_stage("history", Isolation::Threads, ctx.n(50_000, 600_000), case_strategy, test_history);
+    ctx.prop_stage("threads", Isolation::Threads, ctx.n(2_500, 25_000), tcase_strategy, test_threads);
+    ctx.prop_stage("fresh-process", Isolation::Threads, ctx.n(400, 3_000), pcase_strategy, test_process);
+    for m in INFRA.lock().unwrap().drain(..) {
+        ctx.infra_error(m);
+    }
     ctx.finish();
 }
